@@ -649,7 +649,10 @@ func regenerate(c *Ctx) []regenResult {
 // kind and width (incl. high byte), integer constants of every width and signedness, float and string
 // constants, memory operands of every shape (GP / pseudo / no base, GP and vector index), relative
 // offsets and label references.  The meaning of a type name is Model/Forms.v type_match.
-func predicateMatrix(c *Ctx, d *formsDump) string {
+func predicateMatrix(c *Ctx, d *formsDump) string { return predicateMatrixFor(c, d, nil, "Matrix.v") }
+
+// predicateMatrixFor restricts the matrix to the given type names (nil = all) and writes it to file
+func predicateMatrixFor(c *Ctx, d *formsDump, only map[string]bool, file string) string {
 	o := c.Out
 	var univ []operand.Op
 	for _, e := range theRegs {
@@ -685,7 +688,7 @@ func predicateMatrix(c *Ctx, d *formsDump) string {
 	var types []string
 	var tidx []int
 	for k, tn := range d.TypeNames {
-		if tn == "None" || tn == "max" || tn == "" {
+		if tn == "None" || tn == "max" || tn == "" || (only != nil && !only[tn]) {
 			continue
 		}
 		types = append(types, tn)
@@ -706,8 +709,8 @@ func predicateMatrix(c *Ctx, d *formsDump) string {
 	fmt.Fprintf(&b, "Definition ptypes : list string := %s.\n", cStrs(types))
 	fmt.Fprintf(&b, "Definition prows : list (operand * list bool) := %s.\n", cListNL(rows))
 	fmt.Fprintf(&b, "Definition R_predicate_violation := Eval vm_compute in List.map (N.add %d) (idx_where (fun r : operand * list bool => negb (list_eqb Bool.eqb (List.map (fun t => type_match regs t (fst r)) ptypes) (snd r))) prows).\nPrint R_predicate_violation.\n", base)
-	o.WriteFile("Matrix.v", b.String())
-	o.ExpectEmpty("Matrix.v", "R_predicate_violation", "violation", "an operand-type predicate (operand.IsXXX via oprndtype.Match) accepts or rejects this operand contrary to the meaning of the type name (Model/Forms.v type_match): e.g. a float constant as imm32, CH as cl, a 32-bit base register as memory")
+	o.WriteFile(file, b.String())
+	o.ExpectEmpty(file, "R_predicate_violation", "violation", "an operand-type predicate (operand.IsXXX via oprndtype.Match) accepts or rejects this operand contrary to the meaning of the type name (Model/Forms.v type_match): e.g. a float constant as imm32, CH as cl, a 32-bit base register as memory")
 	o.Plan.Stats["predicate_matrix"] = fmt.Sprintf("%d operands x %d types", len(univ), len(types))
-	return "Matrix.v"
+	return file
 }
